@@ -113,6 +113,33 @@ mut('h-rep-early-return-style', 'C07', 'src/rep.rs', "                        if
 mut('h-router-comment', 'C09', 'src/router.rs', "                    message.push_front(peer_id.into());", "                    // label with the sender\n                    message.push_front(peer_id.into());", expect='ok')
 mut('h-rr-rename', 'C10', 'src/backend.rs', "send_result", "outcome", expect='ok')
 mut('h-fq-rename', 'C14', 'src/fair_queue.rs', 'io_stream', 'checked_out', expect='ok')
+mut('h-decode-extra-local', 'C01', 'src/codec/zmq_codec.rs', "                    let flags = src.get_u8();\n", "                    let first = src.get_u8();\n                    let flags = first;\n", expect='ok')
+mut('h-ready-lookup-order', 'C04', 'src/util.rs', '''                let other_sock_type = match command.properties.get("Socket-Type") {
+                    Some(s) => SocketType::try_from(&s[..])?,
+                    None => Err(ZmqError::Other("Failed to parse other socket type"))?,
+                };
+
+                let peer_id = command
+                    .properties
+                    .get("Identity")
+                    .map(|x| x.clone().try_into())
+                    .transpose()?
+                    .unwrap_or_default();
+''', '''                let peer_id = command
+                    .properties
+                    .get("Identity")
+                    .map(|x| x.clone().try_into())
+                    .transpose()?
+                    .unwrap_or_default();
+
+                let other_sock_type = match command.properties.get("Socket-Type") {
+                    Some(s) => SocketType::try_from(&s[..])?,
+                    None => Err(ZmqError::Other("Failed to parse other socket type"))?,
+                };
+''', expect='ok', note='only the precedence of two errors changes; admission is the same')
+mut('h-rep-send-match', 'C07', 'src/rep.rs', "                    if let Some(envelope) = self.envelope.take() {\n                        message.prepend(&envelope);\n                    }", "                    match self.envelope.take() {\n                        Some(envelope) => message.prepend(&envelope),\n                        None => {}\n                    }", expect='ok')
+mut('h-fq-reorder-putback', 'C14', 'src/fair_queue.rs', "                    inner.ready_queue.push(ReadyEvent {\n                        priority,\n                        key: event.key.clone(),\n                    });\n                    inner.streams.insert(event.key, io_stream);", "                    let again = ReadyEvent {\n                        priority,\n                        key: event.key.clone(),\n                    };\n                    inner.streams.insert(event.key, io_stream);\n                    inner.ready_queue.push(again);", expect='ok')
+mut('h-rr-early-continue', 'C10', 'src/backend.rs', "            let send_result = match self.peers.get_async(&next_peer_id).await {\n                Some(mut peer) => peer.send_queue.send(message).await,\n                None => continue,\n            };", "            let mut peer = match self.peers.get_async(&next_peer_id).await {\n                Some(peer) => peer,\n                None => continue,\n            };\n            let send_result = peer.send_queue.send(message).await;", expect='ok')
 mut('h-compat-local', 'C04', 'src/lib.rs', "        let row_index = *self as usize;\n        let col_index = other as usize;\n        COMPATIBILITY_MATRIX[row_index * 12 + col_index] != 0", "        let row = *self as usize;\n        let col = other as usize;\n        COMPATIBILITY_MATRIX[row * 12 + col] != 0", expect='ok')
 
 
